@@ -5,7 +5,7 @@ from ..runner import Op
 
 ID = "C10"
 KINDS = {"U": ["wagner_is_ml", "wagner_min_penalty", "wagner_parity", "minsum_sign_law", "message_passing_clean", "minsum_decodes_clean",
-               "minsum_rescaling", "minsum_scale_invariant"]}
+               "minsum_rescaling", "minsum_scale_invariant", "marginal_minus_own"]}
 PARTIAL = ["sum-product belief propagation (tanh / arctanh, exact or Taylor) is floating point: its sign law and its exactness on cycle-free graphs are not proved in Lean; "
            "clean decoding is tested on the implementation and the a-posteriori LLRs on cycle-free graphs are compared with brute-force marginalisation in float64",
            "the soft Reed-Muller decoder is tested on the implementation (clean input, all codewords for small k) - not modelled",
@@ -168,9 +168,12 @@ def corr(ctx):
                     L = (1 - 2 * sub) * a
                     out = dec(L)
                     ok = tuple(out.shape) == (len(sub), k)
-                    for row, o, m in zip(L.tolist(), out.tolist(), msgs):
-                        ops.append(Op("ms %s %s 500 %d %s %s %s" % (sc, of, iters, G, pos, fr(row)), bstr(o) if ok else "shape%s" % (tuple(out.shape),), nontrivial=any(m),
-                                      info={"site": "fec.decoders:MinSumLDPCDecoder.clean", "config": dict(cfg, magnitude=a, sent=bstr(m))}, prop_ok=ok and bstr(o) == bstr(m)))
+                    for ri, (row, o, m) in enumerate(zip(L.tolist(), out.tolist(), msgs)):
+                        if ri < 3:      # model comparison on the first rows, the property's own verdict on all of them
+                            ops.append(Op("ms %s %s 500 %d %s %s %s" % (sc, of, iters, G, pos, fr(row)), bstr(o) if ok else "shape%s" % (tuple(out.shape),), nontrivial=any(m),
+                                          info={"site": "fec.decoders:MinSumLDPCDecoder.clean", "config": dict(cfg, magnitude=a, sent=bstr(m))}, prop_ok=ok and bstr(o) == bstr(m)))
+                        else:
+                            ops.append(Op("wag -", "-", nontrivial=any(m), info={"site": "fec.decoders:MinSumLDPCDecoder.clean", "config": dict(cfg, magnitude=a, sent=bstr(m), got=bstr(o))}, prop_ok=ok and bstr(o) == bstr(m)))
                 # arbitrary dyadic LLRs: decisions and a-posteriori LLRs equal the model's; rescaling does not change decisions
                 nl = 4 if ctx.thorough else 2
                 L = torch.tensor([[rng.choice([-1, 1]) * rng.randrange(1, 160) / 8 for _ in range(n)] for _ in range(nl)], dtype=torch.float32)
@@ -178,7 +181,7 @@ def corr(ctx):
                 hard2 = dec(L * 4)
                 for row, h, s, h2 in zip(L.tolist(), hard.tolist(), soft.tolist(), hard2.tolist()):
                     mpos = [s[int(v)] for v in dec.idx_mess_t.tolist()]
-                    exact = (not normalized) and scale in (1.0, 0.5)     # float32 arithmetic is exact only for these configurations
+                    exact = (not normalized) and scale == 1.0     # float32 arithmetic is exact only without rescaling (each halving shifts bits out over many iterations)
                     if min(abs(v) for v in mpos) < (1e-6 if exact else 1e-3):
                         ctx.skipped_by_margin += 1
                         continue
